@@ -203,6 +203,9 @@ fn emit_nodes(cx: &mut Ctx, out: &mut String, nodes: &[Node], ind: usize) {
     let pad = "    ".repeat(ind);
     for n in nodes {
         match n {
+            Node::Ovr { o } => {
+                let _ = writeln!(out, "{pad}_ = {o};");
+            }
             Node::Access { g, how, with } => {
                 let gl = cx
                     .s
@@ -327,11 +330,12 @@ fn io_attr(io: &Option<Io>, t: &Ty) -> String {
     match io {
         None => String::new(),
         Some(Io::Builtin { b }) => format!("@builtin({b}) "),
-        Some(Io::Loc { n }) => {
+        Some(Io::Loc { n, blend }) => {
+            let b = if *blend { "@second_blend_source " } else { "" };
             if is_int(t) {
-                format!("@location({n}) @interpolate(flat) ")
+                format!("@location({n}) {b}@interpolate(flat) ")
             } else {
-                format!("@location({n}) ")
+                format!("@location({n}) {b}")
             }
         }
     }
@@ -374,12 +378,14 @@ pub fn concretise(s: &Shader) -> String {
     }
     for o in &s.overrides {
         let id = o.id.map(|i| format!("@id({i}) ")).unwrap_or_default();
+        // the declared type is spelled through an alias when one names it
+        let ty = ty_wgsl_aliased(s, &Ty::Scalar { s: o.ty.clone() });
         match &o.default {
             Some(d) => {
-                let _ = writeln!(out, "{id}override {}: {} = {d};", o.name, o.ty);
+                let _ = writeln!(out, "{id}override {}: {ty} = {d};", o.name);
             }
             None => {
-                let _ = writeln!(out, "{id}override {}: {};", o.name, o.ty);
+                let _ = writeln!(out, "{id}override {}: {ty};", o.name);
             }
         }
     }
